@@ -181,9 +181,9 @@ def run_cell(cell, seed):
         mod2 = build(cell)
         pyrs = {k: make_pyramid(cell, k, seed + 41) for k in ('impulse', 'randn')}
         if all(util.call_lib(mod2, p)[0] for p in pyrs.values()):
-            mod2.load_state_dict(build(cell2).state_dict())
-            for k, (yl, yh) in pyrs.items():
-                out.extend(judge(cell2, 'reload-' + k, None, mod2, yl, yh))
+            if util.reload_in_place(mod2, build(cell2)):
+                for k, (yl, yh) in pyrs.items():
+                    out.extend(judge(cell2, 'reload-' + k, None, mod2, yl, yh))
     # None subsets
     J = cell['J']
     masks = set()
